@@ -25,7 +25,7 @@ import numpy as np
 
 from mc.core import Check, Failure
 from mc.letters import bare_shape, rs
-from mc.observe import buffers, flip, obs_diff, obs_key, observe, unflip
+from mc.observe import buffers, flip, obs_diff, observe, unflip
 
 # [interp] `normalize` is the only feature written against the *image* API (imgfeature): on a MaskedImage it
 # reads `as_vector(keep_channels=True)`, i.e. the pixels under the mask, which is menpo's definition of the
@@ -43,6 +43,9 @@ TIE = 1e-6  # nearest-neighbour source coordinates closer than this to x.5 are n
 # ------------------------------------------------------------------------------------------------
 # image letters
 # ------------------------------------------------------------------------------------------------
+DTYPE_FORMS = ("uint8", "int16", "int32", "int64", "bool", "float32", "float64")
+
+
 def _img_letters(tier):
     """(kind, shape, channels, dtype, mask kind, n landmark groups, payload)"""
     out = []
@@ -76,6 +79,17 @@ def _img_letters(tier):
     # 3-D images (gradient / gaussian / no_op / normalisers are n-dimensional; igo, es refuse)
     out.append(("Image", (4, 5, 3), 2, "float64", "-", 1, "rand"))
     out.append(("MaskedImage", (4, 3, 5), 1, "float32", "sparse", 1, "rand"))
+    # low contrast but NOT constant, per dtype: statistics below the dtype's machine epsilon yet orders of magnitude
+    # above zero ("tiny": values ~ eps/100 around 0; "lowc": 0.5 + sqrt(eps) * u, variance ~ eps/3; "lowc-one": one such channel)
+    for kind, mk in (("Image", "-"), ("MaskedImage", "all"), ("MaskedImage", "sparse")):
+        for dt in ("float32", "float64"):
+            out.append((kind, (6, 7), 2, dt, mk, 1, "tiny"))
+            out.append((kind, (6, 7), 2, dt, mk, 1, "lowc"))
+            out.append((kind, (6, 7), 3, dt, mk, 1, "lowc-one"))
+    # the same integer-valued payload (0..255) presented in every dtype an Image accepts
+    for dt in DTYPE_FORMS:
+        out.append(("Image", (8, 9), 2, dt, "-", 1, "int"))
+        out.append(("MaskedImage", (8, 9), 1, dt, "sparse", 1, "int"))
     if tier == "thorough":
         for S2 in ((13, 12), (9, 16)):
             for kind, mk in (("Image", "-"), ("MaskedImage", "sparse")):
@@ -105,7 +119,22 @@ def build_image(spec, seed):
 
     kind, shp, c, dtype, mkind, k, payload = spec[0], tuple(spec[1]), int(spec[2]), spec[3], spec[4], int(spec[5]), spec[6]
     r = rs(seed, "c18img", kind, shp, c, dtype, mkind)
-    px = (0.05 + r.rand(*((c,) + shp))).astype(dtype)
+    if payload == "int":
+        vals = rs(seed, "c18int", shp, c).randint(0, 256, size=(c,) + shp)  # the same values for every dtype
+        px = (vals > 127) if dtype == "bool" else vals.astype(dtype)
+    elif payload in ("tiny", "lowc", "lowc-one"):
+        eps = float(np.finfo(dtype).eps)
+        u = 2.0 * r.rand(*((c,) + shp)) - 1.0
+        if payload == "tiny":
+            px = (eps * 1e-2 * u).astype(dtype)
+        else:
+            px = (0.5 + np.sqrt(eps) * u).astype(dtype)
+            if payload == "lowc-one":
+                keep = px[1].copy()
+                px = (0.05 + r.rand(*((c,) + shp))).astype(dtype)
+                px[1] = keep
+    else:
+        px = (0.05 + r.rand(*((c,) + shp))).astype(dtype)
     mask = None
     if kind == "MaskedImage":
         if mkind == "all":
@@ -126,7 +155,7 @@ def build_image(spec, seed):
     elif payload == "const-under-mask":
         # constant only on the masked pixels (channel 1), arbitrary elsewhere
         px[1][mask] = consts[3]
-    elif payload != "rand":
+    elif payload not in ("rand", "int", "tiny", "lowc", "lowc-one"):
         raise ValueError(payload)
     im = Image(px.copy()) if kind == "Image" else MaskedImage(px.copy(), mask=mask.copy())
     classes = ["PointCloud", "LabelledPointUndirectedGraph", "PointUndirectedGraph"]
@@ -159,6 +188,34 @@ NORMALIZE = (
     + [("normalize", "zero", mode, err) for mode in ("all", "per_channel") for err in (True, False)]
     + [("normalize", "none", "bogus-mode", True), ("normalize", "default")]
 )
+# argument-form letters: the same parameters presented as numpy scalars (np.int64 / np.float64 / np.bool_ / np.str_),
+# small numpy ints, tuples / ndarrays instead of lists, 0/1 instead of booleans - only forms the unchanged tree accepts
+# (measured; see assumptions() for the forms /repo itself rejects or mishandles).  Each must behave exactly as the
+# base letter and give bitwise the same values.
+PARAM_FORMS = [
+    ("gaussian_filter", 1.5, "@numpy-scalars"),
+    ("gaussian_filter", "per-axis", "@numpy-scalars"),
+    ("gaussian_filter", "per-axis", "@tuples"),
+    ("gaussian_filter", "per-axis", "@ndarrays"),
+    ("daisy", 2, 2, 1, 2, 4, "l1", "@numpy-scalars"),
+    ("daisy", 1, 3, 2, 2, 4, "l1", "@numpy-small-ints"),
+    ("daisy-radii", 2, (1, 2), "@tuples"),
+    ("daisy-radii", 2, (1, 2), "@ndarrays"),
+    ("daisy-sigmas", 1, 2, (1.0, 0.5, 1.0), "@numpy-scalars"),
+    ("sum_channels", "ends", "@ndarrays"),
+    ("sum_channels", "first", "@numpy-scalars"),
+    ("igo", "double_angles", "@numpy-scalars"),
+    ("igo", "double_angles", "@int-flags"),
+    ("normalize_std", "per_channel", False, "@numpy-scalars"),
+    ("normalize_std", "all", True, "@int-flags"),
+    ("normalize_norm", "all", True, "@numpy-scalars"),
+    ("normalize_norm", "per_channel", False, "@int-flags"),
+    ("normalize_var", "per_channel", True, "@numpy-scalars"),
+    ("normalize_var", "all", False, "@int-flags"),
+    ("normalize", "std", "per_channel", True, "@numpy-scalars"),
+    ("normalize", "maxabs", "all", False, "@int-flags"),
+    ("normalize", "zero", "per_channel", False, "@numpy-scalars"),
+]
 FULL = (
     [("no_op",), ("gradient",), ("gaussian_filter", 0.5), ("gaussian_filter", 1.5), ("gaussian_filter", "per-axis"), ("gaussian_filter-positional", 1.5)]
     + [("igo",), ("double_igo",), ("igo", "double_angles"), ("igo", "verbose"), ("es",), ("es", "verbose")]
@@ -168,6 +225,7 @@ FULL = (
     + DAISY_EXTRA
     + NORMALISERS
     + NORMALIZE
+    + PARAM_FORMS
 )
 REDUCED = [
     ("no_op",),
@@ -210,6 +268,26 @@ LEVEL2 = REDUCED + [
     ("user-imgfeature", "negate"),
 ]
 TWO_D_ONLY = ("igo", "double_igo", "es")
+GRADIENT_FAMILY = ("gradient", "igo", "double_igo", "es", "daisy", "daisy-sigmas", "daisy-radii", "daisy-both", "daisy-badnorm")
+ARRAY_FORMS = ("readonly", "fortran", "strided", "negstride")
+
+
+def array_form(a, form):
+    """the same values in another legal ndarray form"""
+    if form == "readonly":
+        v = a.copy()
+        v.flags.writeable = False
+        return v
+    if form == "fortran":
+        return np.asfortranarray(a)
+    sp = tuple(slice(None, None, 2) for _ in a.shape[1:])
+    if form == "strided":
+        big = np.zeros((a.shape[0],) + tuple(2 * n for n in a.shape[1:]), dtype=a.dtype)
+        big[(slice(None),) + sp] = a
+        return big[(slice(None),) + sp]
+    if form == "negstride":
+        return a[:, ::-1].copy()[:, ::-1]
+    raise ValueError(form)
 
 
 def _maxabs(x, axis=None):
@@ -229,6 +307,7 @@ SCALES = {"none": None, "maxabs": _maxabs, "std": _std, "zero": _zero}
 
 def daisy_params(op):
     """(radius, step) a daisy letter ends up with (None when the letter is refused before computing)"""
+    op = split_form(op)[0]
     if op[0] == "daisy":
         return op[2], op[1]
     if op[0] == "daisy-sigmas":
@@ -242,56 +321,99 @@ def daisy_params(op):
     return None
 
 
-def call_feature(op, x):
-    """Call the real feature for letter `op` on x (image or ndarray)."""
+def split_form(op):
+    """(base letter, parameter-form name or None): a trailing '@form' element presents the same parameters in another legal form"""
+    if isinstance(op[-1], str) and op[-1].startswith("@"):
+        return tuple(op[:-1]), op[-1][1:]
+    return tuple(op), None
+
+
+def convert_param(v, form):
+    """the same parameter value in another form the documented API accepts (scale functions and None are left alone)"""
+    if v is None or callable(v):
+        return v
+    if form == "numpy-scalars":
+        if isinstance(v, bool):
+            return np.bool_(v)
+        if isinstance(v, int):
+            return np.int64(v)
+        if isinstance(v, float):
+            return np.float64(v)
+        if isinstance(v, str):
+            return np.str_(v)
+        if isinstance(v, list):
+            return [convert_param(e, form) for e in v]
+    if form == "numpy-small-ints":
+        if isinstance(v, int) and not isinstance(v, bool):
+            return np.int16(v)
+        if isinstance(v, list):
+            return [convert_param(e, form) for e in v]
+    if form == "tuples" and isinstance(v, list):
+        return tuple(v)
+    if form == "ndarrays" and isinstance(v, list):
+        return np.array(v)
+    if form == "int-flags" and isinstance(v, bool):
+        return int(v)
+    return v
+
+
+def feature_call(op, nd, n_ch):
+    """(callable, keyword arguments in their plain python form, quiet) for a base letter"""
     import menpo.feature as F
 
     k = op[0]
-    nd = (x.ndim - 1) if isinstance(x, np.ndarray) else x.n_dims
-    n_ch = x.shape[0] if isinstance(x, np.ndarray) else x.n_channels
     if k == "no_op":
-        return F.no_op(x)
+        return F.no_op, {}, False
     if k in ("user-ndfeature", "user-imgfeature"):
-        return _user_features()[(k, op[1])](x)
+        return _user_features()[(k, op[1])], {}, False
     if k == "gradient":
-        return F.gradient(x)
+        return F.gradient, {}, False
     if k == "gaussian_filter":
-        sigma = [0.5, 1.5, 1.0][:nd] if op[1] == "per-axis" else op[1]
-        return F.gaussian_filter(x, sigma=sigma)
+        return F.gaussian_filter, {"sigma": [0.5, 1.5, 1.0][:nd] if op[1] == "per-axis" else op[1]}, False
     if k == "gaussian_filter-positional":
-        return F.gaussian_filter(x, op[1])
+        return (lambda x, sigma: F.gaussian_filter(x, sigma)), {"sigma": op[1]}, False
     if k == "igo":
         if len(op) == 1:
-            return F.igo(x)
+            return F.igo, {}, False
         if op[1] == "double_angles":
-            return F.igo(x, double_angles=True)
-        return _quiet(lambda: F.igo(x, verbose=True))
+            return F.igo, {"double_angles": True}, False
+        return F.igo, {"verbose": True}, True
     if k == "double_igo":
-        return F.double_igo(x)
+        return F.double_igo, {}, False
     if k == "es":
-        if len(op) == 1:
-            return F.es(x)
-        return _quiet(lambda: F.es(x, verbose=True))
+        return F.es, ({} if len(op) == 1 else {"verbose": True}), len(op) > 1
     if k == "sum_channels":
-        ch = None if op[1] == "all" else [0] if op[1] == "first" else [0, n_ch - 1]
-        return F.sum_channels(x, channels=ch)
+        return F.sum_channels, {"channels": None if op[1] == "all" else [0] if op[1] == "first" else [0, n_ch - 1]}, False
     if k == "daisy":
-        return F.daisy(x, step=op[1], radius=op[2], rings=op[3], histograms=op[4], orientations=op[5], normalization=None if op[6] == "off" else op[6])
+        return F.daisy, dict(step=op[1], radius=op[2], rings=op[3], histograms=op[4], orientations=op[5], normalization=None if op[6] == "off" else op[6]), False
     if k == "daisy-sigmas":
-        return F.daisy(x, step=op[1], radius=op[2], rings=7, histograms=2, orientations=4, sigmas=list(op[3]))
+        return F.daisy, dict(step=op[1], radius=op[2], rings=7, histograms=2, orientations=4, sigmas=list(op[3])), False
     if k == "daisy-radii":
-        return F.daisy(x, step=op[1], radius=9, rings=7, histograms=2, orientations=4, ring_radii=list(op[2]))
+        return F.daisy, dict(step=op[1], radius=9, rings=7, histograms=2, orientations=4, ring_radii=list(op[2])), False
     if k == "daisy-both":
-        return F.daisy(x, step=op[1], histograms=2, orientations=4, sigmas=list(op[2]), ring_radii=list(op[3]))
+        return F.daisy, dict(step=op[1], histograms=2, orientations=4, sigmas=list(op[2]), ring_radii=list(op[3])), False
     if k == "daisy-badnorm":
-        return F.daisy(x, step=op[1], radius=op[2], rings=1, histograms=2, orientations=4, normalization="l3")
+        return F.daisy, dict(step=op[1], radius=op[2], rings=1, histograms=2, orientations=4, normalization="l3"), False
     if k in ("normalize_std", "normalize_norm", "normalize_var"):
-        return getattr(F, k)(x, mode=op[1], error_on_divide_by_zero=op[2])
+        return getattr(F, k), {"mode": op[1], "error_on_divide_by_zero": op[2]}, False
     if k == "normalize":
         if op[1] == "default":
-            return F.normalize(x)
-        return F.normalize(x, scale_func=SCALES[op[1]], mode=op[2], error_on_divide_by_zero=op[3])
+            return F.normalize, {}, False
+        return F.normalize, {"scale_func": SCALES[op[1]], "mode": op[2], "error_on_divide_by_zero": op[3]}, False
     raise ValueError(op)
+
+
+def call_feature(op, x):
+    """Call the real feature for letter `op` on x (image or ndarray)."""
+    base, form = split_form(op)
+    nd = (x.ndim - 1) if isinstance(x, np.ndarray) else x.n_dims
+    n_ch = x.shape[0] if isinstance(x, np.ndarray) else x.n_channels
+    fn, kw, quiet = feature_call(base, nd, n_ch)
+    if form is not None:
+        kw = {k: convert_param(v, form) for k, v in kw.items()}
+    if quiet:
+        return _quiet(lambda: fn(x, **kw))
+    return fn(x, **kw)
 
 
 def _quiet(fn):
@@ -313,7 +435,7 @@ def _user_features():
 
         @F.ndfeature
         def negate(pixels):
-            return -pixels
+            return 0 - pixels
 
         @F.ndfeature
         def halve_rows(pixels):
@@ -326,7 +448,7 @@ def _user_features():
         @F.imgfeature
         def img_negate(image):
             new = image.copy()
-            new.pixels = -new.pixels
+            new.pixels = 0 - new.pixels
             return new
 
         _USER[("user-ndfeature", "negate")] = negate
@@ -337,6 +459,9 @@ def _user_features():
 
 
 def letter_name(op):
+    op, form = split_form(op)
+    if form is not None:
+        return "%s@%s" % (letter_name(op), form)
     k = op[0]
     if k.startswith("daisy"):
         return k
@@ -354,6 +479,7 @@ def letter_name(op):
 # ------------------------------------------------------------------------------------------------
 def normaliser_of(op):
     """(statistic name, mode, error flag) for normalising letters, else None"""
+    op = split_form(op)[0]
     k = op[0]
     if k in ("normalize_std", "normalize_norm", "normalize_var"):
         return k.split("_")[1], op[1], op[2]
@@ -426,7 +552,7 @@ def ref_normalise(data, name, mode):
         res = c / (safe if mode == "all" else safe.reshape(-1, 1))
     if exact.shape != zero.shape:
         exact = np.broadcast_to(exact, zero.shape)
-    return {"c": c, "stat": stat, "zero": zero & exact, "fragile": (zero & ~exact) | (exact & ~zero), "cond": cond, "res": res, "axis": axis}
+    return {"c": c, "stat": stat, "native": native, "zero": zero & exact, "fragile": (zero & ~exact) | (exact & ~zero), "cond": cond, "res": res, "axis": axis}
 
 
 def ref_mask_resize(mask, new_shape):
@@ -505,15 +631,19 @@ class C18(Check):
         return {"img": img, "arr": np.array(img.pixels, copy=True), "model": model, "root": root, "names": []}
 
     def canon(self, st):
-        return (obs_key(observe(st["img"])), obs_key(st["arr"]))
+        # exact (bitwise) key: the payload alphabet contains values far below any fixed rounding (the "tiny" letters)
+        return (_exact_key(observe(st["img"])), _exact_key(st["arr"]))
 
     # ------------------------------------------------------------------ alphabet
     def _enabled(self, st, op):
         img = st["img"]
         S = img.shape
+        op = split_form(op)[0]
         k = op[0]
         if not np.all(np.isfinite(st["arr"])):
             return False  # non-finite data (es of a constant image) is outside the quantifier
+        if st["arr"].dtype == bool and k in GRADIENT_FAMILY and not (k == "daisy-both" and len(op[2]) - 1 != len(op[3])) and k != "daisy-badnorm":
+            return False  # numpy itself refuses to subtract booleans: gradients of bool pixels are not defined
         dp = daisy_params(op)
         if dp is not None:
             if img.n_dims != 2:
@@ -544,6 +674,8 @@ class C18(Check):
 
         img, arr, model = st["img"], st["arr"], st["model"]
         name = letter_name(op)
+        full_op = op
+        op, pform = split_form(op)
         masked = isinstance(img, MaskedImage)
         old_shape = tuple(img.shape)
         nd = img.n_dims
@@ -551,7 +683,7 @@ class C18(Check):
 
         def call(x):
             try:
-                return call_feature(op, x), None
+                return call_feature(full_op, x), None
             except (ValueError, TypeError, IndexError, ZeroDivisionError, FloatingPointError) as e:
                 return None, e
 
@@ -560,7 +692,7 @@ class C18(Check):
                 r_img, e1 = call(img)
                 r_arr, e2 = call(arr)
             if e1 is None and e2 is None and not self._same_state(st, r_img, r_arr):
-                self._advance(st, op, r_img, r_arr, old_shape)
+                self._advance(st, full_op, r_img, r_arr, old_shape)
             return fails
 
         before = observe(img)
@@ -570,12 +702,15 @@ class C18(Check):
 
         # ---- what the model expects: refusal or value
         expect_refusal = None
+        refusal_class = ValueError
         nz = normaliser_of(op)
         ref_full = ref_dom = None
         if op[0] == "daisy-both" and len(op[2]) - 1 != len(op[3]):
             expect_refusal = "daisy-sigmas-radii-mismatch"
         elif op[0] == "daisy-badnorm":
             expect_refusal = "daisy-unknown-normalisation"
+        elif op[0] in GRADIENT_FAMILY and arr.dtype == np.uint8:
+            expect_refusal, refusal_class = "uint8-gradient", TypeError  # stated by gradient(): uint8 is refused
         elif op[0] in TWO_D_ONLY and nd != 2:
             expect_refusal = "not-2d"
         elif nz is not None and nz[1] not in ("all", "per_channel"):
@@ -601,15 +736,20 @@ class C18(Check):
 
         # ---- refusals
         def zero_state(ref):
-            """'zero' some statistic exactly zero; 'ill' some statistic tiny but not zero; 'ok'"""
+            """'zero'   some statistic is exactly zero whatever the order of summation (refusal / skip demanded);
+            'ill'    a statistic that rounding alone could make zero or not (either outcome accepted);
+            'ok' / 'coarse' / 'blind'  every statistic is firmly non-zero (a refusal or a skip is a failure), values
+                     judged with the fine tolerance / with a tolerance up to 0.5 relative / not judged"""
             if ref is None:
                 return "ok"
             eps = EPS[str(arr.dtype)] if str(arr.dtype) in EPS else EPS["float64"]
-            if np.any(ref["fragile"]) or np.any((ref["cond"] * eps * 1e3 > 1e-2) & ~ref["zero"]):
+            nonzero = ~ref["zero"]
+            if np.any(ref["fragile"]) or np.any((ref["cond"] * eps >= 1e-2) & nonzero):
                 return "ill"
             if np.any(ref["zero"]):
                 return "zero"
-            return "ok"
+            f = float(np.max(1e3 * eps * ref["cond"]))
+            return "ok" if f <= 1e-2 else "coarse" if f <= 0.5 else "blind"
 
         zs_arr = zero_state(ref_full)
         zs_img = zero_state(ref_dom) if masked_domain else zs_arr
@@ -624,23 +764,31 @@ class C18(Check):
                 if exp and not isinstance(exc, ValueError):
                     fails.append(Failure(name, "zero-scale-not-refused", "%s call: a scale statistic is exactly 0 and error_on_divide_by_zero=True: expected ValueError, got %s" % (who, _short(exc, res))))
                 if not exp and exc is not None:
-                    clause = "zero-scale-not-skipped" if zs == "zero" else "raised"
-                    fails.append(Failure(name, clause, "%s call raised %s: %s (zero statistic: %s, error_on_divide_by_zero=%s)" % (who, type(exc).__name__, exc, zs == "zero", err_flag)))
+                    clause = "zero-scale-not-skipped" if zs == "zero" else "nonzero-scale-refused"
+                    fails.append(Failure(name, clause, "%s call raised %s: %s (zero statistic: %s, error_on_divide_by_zero=%s, smallest statistic %.3g)" % (who, type(exc).__name__, exc, zs == "zero", err_flag, _smallest(ref_dom if (who == "image" and masked_domain) else ref_full))))
+                if zs in ("ok", "coarse", "blind") and arr.dtype.kind == "f":
+                    small = _smallest(ref_dom if (who == "image" and masked_domain) else ref_full)
+                    if 0 < small <= float(np.finfo(arr.dtype).eps):
+                        self.note("tiny-scale:%s-%s-%s" % (arr.dtype, nz[1], who))
             if fails:
                 return fails
             if exc_img is not None or exc_arr is not None:
                 if zs_arr != "ill" and zs_img != "ill":
                     self.note("%s:refused-zero-scale" % name)
                     self.note("zero:refused-%s" % nz[1])
+                    if not st["names"]:
+                        fails.extend(self._check_forms(name, full_op, img, arr_before, r_img, r_arr, exc_img, exc_arr, masked))
                     return fails
                 # ill-conditioned: only demand that neither call produced non-finite data
                 self.note("%s:ill-conditioned-refused" % name)
                 return fails
         elif expect_refusal is not None:
             for who, exc, res in (("array", exc_arr, r_arr), ("image", exc_img, r_img)):
-                if not isinstance(exc, ValueError):
-                    fails.append(Failure(name, "refusal", "%s call: expected ValueError (%s), got %s" % (who, expect_refusal, _short(exc, res))))
+                if not isinstance(exc, refusal_class):
+                    fails.append(Failure(name, "refusal", "%s call: expected %s (%s), got %s" % (who, refusal_class.__name__, expect_refusal, _short(exc, res))))
             self.note("%s:refused-%s" % (name, expect_refusal))
+            if not fails and not st["names"]:
+                fails.extend(self._check_forms(name, full_op, img, arr_before, r_img, r_arr, exc_img, exc_arr, masked))
             return fails
         else:
             for who, exc in (("array", exc_arr), ("image", exc_img)):
@@ -697,16 +845,79 @@ class C18(Check):
         if fails:
             return fails
 
+        # ---- argument forms: the same parameters / the same pixel data in another legal form
+        if pform is not None:
+            with np.errstate(all="ignore"):
+                b_arr = call_feature(op, arr)
+                b_img = call_feature(op, img)
+            if not (b_arr.shape == r_arr.shape and np.array_equal(b_arr, r_arr, equal_nan=True)):
+                fails.append(Failure(name, "parameter-form", "array call: parameters as %s give other values than the plain python form (max abs %.3g)" % (pform, _maxdiff(b_arr, r_arr))))
+            d = obs_diff(observe(b_img), observe(r_img))
+            if d is not None:
+                fails.append(Failure(name, "parameter-form", "image call: parameters as %s give another result than the plain python form: %s" % (pform, d)))
+            self.note("param-form:%s" % pform)
+        if not st["names"]:
+            fails.extend(self._check_forms(name, full_op, img, arr_before, r_img, r_arr, None, None, masked))
+        if fails:
+            return fails
+
         self.note("level%d:%s" % (len(st["names"]) + 1, "masked" if masked else "plain"))
+        if not st["names"] and (nz is not None or op[0] in ("no_op", "gaussian_filter", "sum_channels")):
+            self.note("dtype:%s-%s" % (arr.dtype, "masked" if masked else "plain"))
         if not self._same_state(st, r_img, r_arr):
             # a result indistinguishable from the input (no_op, centring of centred data) is a self loop: the
             # state object is kept, so that `names` counts the features that really produced this state
-            self._advance(st, op, r_img, r_arr, old_shape)
+            self._advance(st, full_op, r_img, r_arr, old_shape)
+        return fails
+
+    def _check_forms(self, name, full_op, img, arr, r_img, r_arr, exc_img, exc_arr, masked):
+        """the raw array as a read-only / Fortran-ordered / strided / negatively strided view and the image holding a
+        read-only pixel buffer must behave exactly like the plain contiguous writable forms (root states only)"""
+        from menpo.image import Image, MaskedImage
+
+        fails = []
+
+        def call(x):
+            try:
+                with np.errstate(all="ignore"):
+                    return call_feature(full_op, x), None
+            except (ValueError, TypeError, IndexError, ZeroDivisionError, FloatingPointError) as e:
+                return None, e
+
+        for form in ARRAY_FORMS:
+            v = array_form(arr, form)
+            keep = np.array(v, copy=True)
+            rv, ev = call(v)
+            if not np.array_equal(np.asarray(v), keep, equal_nan=True):
+                fails.append(Failure(name, "input-array-modified", "%s array changed by the call" % form))
+            if (ev is None) != (exc_arr is None) or (ev is not None and type(ev) is not type(exc_arr)):
+                fails.append(Failure(name, "array-form", "%s array: %s, plain array: %s" % (form, _short(ev, rv), _short(exc_arr, r_arr))))
+            elif ev is None and not (isinstance(rv, np.ndarray) and rv.shape == r_arr.shape and np.array_equal(rv, r_arr, equal_nan=True)):
+                fails.append(Failure(name, "array-form", "%s array gives other values than the contiguous writable array (max abs %.3g)" % (form, _maxdiff(rv, r_arr))))
+            self.note("form:array-%s" % form)
+        px = np.array(img.pixels, copy=True)
+        px.flags.writeable = False
+        im2 = MaskedImage(px, mask=img.mask.pixels[0].copy(), copy=False) if masked else Image(px, copy=False)
+        if img.has_landmarks:
+            im2.landmarks = img.landmarks
+        shares = np.shares_memory(im2.pixels, px)
+        before2 = observe(im2)
+        r2, e2 = call(im2)
+        d = obs_diff(before2, observe(im2))
+        if d is not None:
+            fails.append(Failure(name, "input-image-modified", "image over a read-only pixel buffer changed by the call: %s" % d))
+        if (e2 is None) != (exc_img is None) or (e2 is not None and type(e2) is not type(exc_img)):
+            fails.append(Failure(name, "image-form", "image over a read-only pixel buffer: %s, plain image: %s" % (_short(e2, r2), _short(exc_img, r_img))))
+        elif e2 is None:
+            d = obs_diff(observe(r_img), observe(r2))
+            if d is not None:
+                fails.append(Failure(name, "image-form", "image over a read-only pixel buffer gives another result: %s" % d))
+        self.note("form:image-readonly-pixels%s" % ("" if shares else "-copied"))
         return fails
 
     def _same_state(self, st, r_img, r_arr):
         # the same criterion as canon(): the explorer keeps the live object exactly when this holds
-        return (obs_key(observe(r_img)), obs_key(r_arr)) == self.canon(st)
+        return (_exact_key(observe(r_img)), _exact_key(r_arr)) == self.canon(st)
 
     def _advance(self, st, op, r_img, r_arr, old_shape):
         from menpo.image import MaskedImage
@@ -815,7 +1026,8 @@ class C18(Check):
             if not np.all(np.isfinite(got)):
                 fails.append(Failure(name, "non-finite", "%s call produced %d non-finite values" % (who, int((~np.isfinite(got)).sum()))))
                 continue
-            if zs == "ill":
+            if zs in ("ill", "blind"):
+                self.note("%s:values-not-judged" % name)
                 continue
             got = got.astype(np.float64)
             zero = ref["zero"]
@@ -934,6 +1146,11 @@ class C18(Check):
             "es:refused-not-2d",
             "normalize-none-bogus-mode:refused-unknown-mode",
         ]
+        need += ["form:array-%s" % f for f in ARRAY_FORMS] + ["form:image-readonly-pixels"]
+        need += ["param-form:%s" % f for f in ("numpy-scalars", "numpy-small-ints", "tuples", "ndarrays", "int-flags")]
+        need += ["tiny-scale:%s-%s-%s" % (dt, mode, who) for dt in ("float32", "float64") for mode in ("all", "per_channel") for who in ("array", "image")]
+        need += ["dtype:%s-%s" % (dt, kind) for dt in DTYPE_FORMS for kind in ("plain", "masked")]
+        need += ["gradient:refused-uint8-gradient", "daisy:refused-uint8-gradient"]
         out = ["outcome %s never produced" % n for n in need if not notes.get(n)]
         for op in FULL:
             nm = letter_name(op)
@@ -960,6 +1177,9 @@ class C18(Check):
             "feature_letters_level1": len(FULL),
             "feature_letters_level2": len(LEVEL2) if self.tier == "thorough" else 0,
             "daisy_letters": len(DAISY_GRID) + len(DAISY_EXTRA),
+            "parameter_form_letters": len(PARAM_FORMS),
+            "array_forms": list(ARRAY_FORMS) + ["image-readonly-pixels"],
+            "dtype_forms": list(DTYPE_FORMS),
             "roots": len(self.roots()),
             "tie_guard": TIE,
             "tolerance_floor": FLOOR,
@@ -975,8 +1195,32 @@ class C18(Check):
             "mask pixels whose nearest-neighbour source coordinate is a rounding tie, or on an axis that collapses to one pixel, follow the implementation",
             "states holding non-finite data (es of a constant image) are not expanded; normalize() is not applied to a masked image whose mask has no true pixel",
             "a zero statistic is predicted (refusal / skip demanded) only for constant data that is a multiple of 1/8 or for the always-zero custom scale; constant data with other values is ill-conditioned (either outcome accepted)",
+            "argument forms: pixel data as uint8 / int16 / int32 / int64 / bool / float32 / float64 (same integer payload); raw arrays as read-only, Fortran-ordered, strided and negatively strided views, images over a read-only pixel buffer (root states); parameters as numpy scalars, small numpy ints, tuples / ndarrays for lists, 0/1 for flags",
+            "forms the unchanged tree itself rejects or mishandles are not letters: python lists / tuples as the pixel argument (AttributeError), daisy sigmas as tuple (TypeError) or ndarray (silently other values), daisy ring_radii with float entries (TypeError), sum_channels channels as tuple (indexes instead of selecting), gaussian sigma as np.float32 (scipy rounds differently), gradient-family features on bool pixels (numpy refuses boolean subtraction); uint8 gradient is the stated TypeError",
+            "low-contrast letters: statistics below the dtype's machine epsilon but far above zero must be divided by, never refused or skipped; values judged when 1e3*eps*cond <= 0.5",
             "depth 2 (thorough) uses a reduced feature alphabet (%d letters) on the second level" % len(LEVEL2),
         ]
+
+
+def _exact_key(o):
+    """hashable key of an observation without rounding (only -0.0 is folded into 0.0)"""
+    if isinstance(o, np.ndarray):
+        a = (o + 0.0) if o.dtype.kind in "fc" else o
+        return ("A", o.shape, str(o.dtype), np.ascontiguousarray(a).tobytes())
+    if isinstance(o, dict):
+        return ("D",) + tuple((str(k), _exact_key(v)) for k, v in o.items())
+    if isinstance(o, (list, tuple)):
+        return ("L",) + tuple(_exact_key(v) for v in o)
+    if isinstance(o, float):
+        return o + 0.0
+    return o
+
+
+def _smallest(ref):
+    try:
+        return float(np.min(np.abs(ref["native"])))
+    except Exception:  # noqa
+        return float("nan")
 
 
 def _maxdiff(a, b):
